@@ -9,11 +9,11 @@ extra = []
 mods = [a for a in args if not a.startswith('-')]
 for m in mods:
     extra += ['--verify-only-module', m]
-plan = overlay.load('/verif/contracts')
-g = gen.assemble(plan, out_path='/verif/gen/ohg_verus.rs')
+plan = overlay.load(os.environ.get('VERIF_CONTRACTS', '/verif/contracts'))
+g = gen.assemble(plan, repo=os.environ.get('VERIF_REPO', '/repo'), out_path=os.environ.get('VERIF_GEN', '/verif/gen/ohg_verus.rs'))
 for fid, err in g['lost']:
     print('LOST', fid, err)
-res = verus.run_verus('/verif/gen/ohg_verus.rs', extra=extra)
+res = verus.run_verus(os.environ.get('VERIF_GEN', '/verif/gen/ohg_verus.rs'), extra=extra)
 c = verus.classify(res, g['linemap'])
 if res['json'] is None:
     print(res.get('stderr_tail'))
